@@ -133,7 +133,7 @@ def entries311(rnd, n):
     for _ in range(n):
         es = [rand_entry(rnd) for _ in range(rnd.randrange(1, 9))]
         # keep lines positive
-        out.append((es, rnd.choice([200000, 300000])))
+        out.append((es, rnd.choice([1000000, 2000000])))
     return out
 
 
